@@ -21,6 +21,11 @@ fn rescale_prob(prob: f64, rng: &mut StdRng) -> f64 {
     rescale(prob, rng).min(1.0)
 }
 
+// Repeated rescaling must neither underflow to zero nor overflow to infinity: the scale stays positive and finite.
+fn rescale_scale(scale: f64, rng: &mut StdRng) -> f64 {
+    rescale(scale, rng).clamp(f64::MIN_POSITIVE, f64::MAX)
+}
+
 pub fn create_exploratory(rng: &mut StdRng) -> (CrossoverParams, MutationParams) {
     let crossover_params = CrossoverParams {
         crossover_prob: 0.5,
@@ -47,7 +52,7 @@ pub fn mutate(
 
     let mutation_params = MutationParams {
         mutation_prob: rescale_prob(mutation_params.mutation_prob, rng),
-        mutation_scale: rescale(mutation_params.mutation_scale, rng),
+        mutation_scale: rescale_scale(mutation_params.mutation_scale, rng),
     };
 
     (crossover_params, mutation_params)
